@@ -577,8 +577,9 @@ fn c_any_table_dec() {
     assert!(be64(&blk.0) == r::decrypt_words(&pi, &c.key, be64(&b)));
 }
 
-// ---------------------------------------------------------------- monolithic variants: no stub anywhere (thorough tier)
-// @ob name=c_magma_mono_enc props=C07,C20 tier=thorough fn=magma::Magma::new,magma::Magma::encrypt_block,magma::sboxes::SboxExt::g,magma::sboxes::SboxExt::apply_sbox timeout=1800
+// ---------------------------------------------------------------- monolithic variants: no stub anywhere
+// (measured under load: enc 152 s, dec 91 s, round trip 441 s -> the round trip is thorough tier)
+// @ob name=c_magma_mono_enc props=C07,C20 fn=magma::Magma::new,magma::Magma::encrypt_block,magma::sboxes::SboxExt::g,magma::sboxes::SboxExt::apply_sbox timeout=900
 #[kani::proof]
 #[kani::unwind(33)]
 fn c_magma_mono_enc() {
@@ -589,7 +590,7 @@ fn c_magma_mono_enc() {
     cipher::BlockCipherEncrypt::encrypt_block(&c, &mut blk);
     assert!(be64(&blk.0) == r::magma_encrypt(&k, be64(&b)));
 }
-// @ob name=c_magma_mono_dec props=C07,C20 tier=thorough fn=magma::Magma::new,magma::Magma::decrypt_block,magma::sboxes::SboxExt::g,magma::sboxes::SboxExt::apply_sbox timeout=1800
+// @ob name=c_magma_mono_dec props=C07,C20 fn=magma::Magma::new,magma::Magma::decrypt_block,magma::sboxes::SboxExt::g,magma::sboxes::SboxExt::apply_sbox timeout=900
 #[kani::proof]
 #[kani::unwind(33)]
 fn c_magma_mono_dec() {
